@@ -39,6 +39,10 @@ enum Field {
     SizedBytes(usize),
     /// length field (u8) + array of U16LE elements occupying that many bytes (2 nodes)
     SizedArray(usize),
+    /// length field (U16LE) announcing `.0` bytes + byte block of `.1` bytes (2 nodes): the announced size excludes a
+    /// terminator or differs otherwise (cbDomain / Domain): write() and length() go by the field, not by the announcement;
+    /// written and measured only
+    SizedMismatch(usize, usize),
     /// flag byte + U16BE field present iff flag != 0 (2 nodes)
     SkipPair(bool),
     /// flag byte, an unrelated u8, then the U16BE field present iff flag != 0 (3 nodes): the target is not adjacent
@@ -67,7 +71,7 @@ impl Field {
         match self {
             Field::SkipTwo(..) => 4,
             Field::TrameU16U8 | Field::TrameOptMid(_) | Field::Nested | Field::SkipGap(_) | Field::SkipChain(..) | Field::SizedSkip(_) | Field::NestedSize(_) => 3,
-            Field::SizedBytes(_) | Field::SizedArray(_) | Field::SkipPair(_) | Field::SkipBack(_) => 2,
+            Field::SizedBytes(_) | Field::SizedArray(_) | Field::SizedMismatch(..) | Field::SkipPair(_) | Field::SkipBack(_) => 2,
             _ => 1,
         }
     }
@@ -94,6 +98,9 @@ fn field_menu() -> Vec<Field> {
         Field::SizedBytes(0),
         Field::SizedBytes(1),
         Field::SizedBytes(3),
+        Field::SizedMismatch(4, 6),
+        Field::SizedMismatch(6, 4),
+        Field::SizedMismatch(0, 2),
         Field::SizedArray(0),
         Field::SizedArray(1),
         Field::SizedArray(2),
@@ -286,6 +293,19 @@ fn build(shape: &[Field], variant: usize) -> Built {
                 empty.insert(target, Box::new(Vec::<u8>::new()));
                 w.u16le(*n as u16).bytes(&v);
                 leaves.push(Leaf::H(*n as u16));
+                leaves.push(Leaf::S(v));
+            }
+            Field::SizedMismatch(announced, real) => {
+                let v: Vec<u8> = (0..*real).map(|_| nx8()).collect();
+                let target = format!("f{}b", i);
+                let t1 = target.clone();
+                let t2 = target.clone();
+                msg.insert(name.clone(), Box::new(DynOption::new(U16::LE(*announced as u16), move |x| MessageOption::Size(t1.clone(), x.inner() as usize))));
+                msg.insert(target.clone(), Box::new(v.clone()));
+                empty.insert(name, Box::new(DynOption::new(U16::LE(0), move |x| MessageOption::Size(t2.clone(), x.inner() as usize))));
+                empty.insert(target, Box::new(Vec::<u8>::new()));
+                w.u16le(*announced as u16).bytes(&v);
+                leaves.push(Leaf::H(*announced as u16));
                 leaves.push(Leaf::S(v));
             }
             Field::SizedArray(n) => {
@@ -728,7 +748,7 @@ impl Prop for C18 {
         json!({"idx": idx, "case": self.cases[idx as usize]})
     }
     fn rule(&self) -> String {
-        "cases: [model] every message shape of <=4 nodes (<=5 thorough) over {u8, U16/U32 LE/BE, fixed byte block, Check, Trame, Trame with an absent / present optional element in front of data, nested Component, size-dependent byte block and array (DynOption Size), skippable field (DynOption SkipField: adjacent target, distant target, two skips pending at once, a skip naming an earlier field, a skipped field that itself carries a skip), a size-dependent field that itself carries a skip or a size for the next field, trailing Option present/absent, trailing rest-of-input block, trailing array} x 2 (5) value variants from {0,1,7F,80,FF,...}: length()==bytes written==reference bytes, read into an empty same-shape message reproduces every leaf and consumes exactly; [per] every length 0..0x7FFF, integers (all of u16, u32 boundaries; all 2^32 in thorough), integer16 (value,minimum) boundary pairs and whole rows, every nibble-valid 6-arc OID over {0,1,15,16,127,128,255}, octet strings at every length boundary, numeric strings; [asn1] INTEGER/ENUMERATED/OCTET STRING boundaries and the tagged shapes of MCS/CredSSP against an independent DER codec; [gcc] conference create request for block sizes across the PER length boundaries, every response of the reference encoder over versions x optional SC_CORE fields x 0..31 channels x 6 block orders x unknown block (none / 8-byte body / empty body between the blocks / empty body at the end) x node ids. Non-trivial: every case except single-leaf model shapes.".into()
+        "cases: [model] every message shape of <=4 nodes (<=5 thorough) over {u8, U16/U32 LE/BE, fixed byte block, Check, Trame, Trame with an absent / present optional element in front of data, nested Component, size-dependent byte block and array (DynOption Size), skippable field (DynOption SkipField: adjacent target, distant target, two skips pending at once, a skip naming an earlier field, a skipped field that itself carries a skip), a size-dependent field that itself carries a skip or a size for the next field, trailing Option present/absent, trailing rest-of-input block, trailing array} x 2 (5) value variants from {0,1,7F,80,FF,...}: length()==bytes written==reference bytes, read into an empty same-shape message (whose length() was asked first) reproduces every leaf and consumes exactly; a length field announcing another size than its block is written and measured by the block; [per] every length 0..0x7FFF, integers (all of u16, u32 boundaries; all 2^32 in thorough), integer16 (value,minimum) boundary pairs and whole rows, every nibble-valid 6-arc OID over {0,1,15,16,127,128,255}, octet strings at every length boundary, numeric strings; [asn1] INTEGER/ENUMERATED/OCTET STRING boundaries and the tagged shapes of MCS/CredSSP against an independent DER codec; [gcc] conference create request for block sizes across the PER length boundaries, every response of the reference encoder over versions x optional SC_CORE fields x 0..31 channels x 6 block orders x unknown block (none / 8-byte body / empty body between the blocks / empty body at the end) x node ids. Non-trivial: every case except single-leaf model shapes.".into()
     }
     fn assumptions(&self) -> Vec<String> {
         vec![
@@ -759,7 +779,12 @@ impl Prop for C18 {
                 if b.msg.length() != bytes.len() as u64 {
                     return fail("model-length-differs-from-bytes-written", format!("length() {} bytes {}", b.msg.length(), bytes.len()));
                 }
+                if shape.iter().any(|f| matches!(f, Field::SizedMismatch(..))) {
+                    return Outcome::pass("model-write-only", true);
+                }
                 let mut empty = b.empty;
+                // (asking an untouched message for its length must not fix anything for the read that follows)
+                let _ = empty.length();
                 let mut cur = Cursor::new(bytes.clone());
                 if let Err(e) = empty.read(&mut cur) {
                     return fail("model-read-error", format!("{:?} reading {}", e, hex(&bytes)));
@@ -1115,6 +1140,22 @@ fn asn1_shape(k: usize) -> Outcome {
         let mut m = SequenceOf::reader(|| Box::new(sequence!["t" => ExplicitTag::new(yasna_tag_ctx(0), OctetString::new())]));
         if lasn1::from_der(&mut m, &want).is_err() || m.inner.len() != 1 {
             return fail("asn1-shape-decode", "sequence-of shape".into());
+        }
+    }
+    if k == 10 {
+        // the empty collection decodes as well, bare and inside a TSRequest-like wrapper
+        let mut m = SequenceOf::reader(|| Box::new(sequence!["t" => ExplicitTag::new(yasna_tag_ctx(0), OctetString::new())]));
+        if lasn1::from_der(&mut m, &want).is_err() || !m.inner.is_empty() {
+            return fail("asn1-shape-decode", "empty SEQUENCE OF (30 00) rejected".into());
+        }
+        let mut m2 = SequenceOf::reader(|| Box::new(sequence!["t" => ExplicitTag::new(yasna_tag_ctx(0), OctetString::new())]));
+        if lasn1::from_ber(&mut m2, &want).is_err() {
+            return fail("asn1-shape-decode", "empty SEQUENCE OF (30 00) rejected by the BER reader".into());
+        }
+        let wrapped = der::seq(&[der::explicit(0, &der::integer(2)), der::explicit(1, &der::seq(&[]))]);
+        let mut ts = sequence!["version" => ExplicitTag::new(yasna_tag_ctx(0), 0 as lasn1::Integer), "negoTokens" => ExplicitTag::new(yasna_tag_ctx(1), SequenceOf::reader(|| Box::new(sequence!["t" => ExplicitTag::new(yasna_tag_ctx(0), OctetString::new())])))];
+        if let Err(e) = lasn1::from_der(&mut ts, &wrapped) {
+            return fail("asn1-shape-decode", format!("TSRequest-like value with an empty negoTokens list rejected: {:?}", e));
         }
     }
     Outcome::pass("asn1-shape", true)
